@@ -48,8 +48,23 @@ func init() {
 	proto.Register(&proto.Prop{ID: "C11", Gen: c11Gen, Exec: c11Exec, Corpus: c11Corpus()})
 }
 
-// a build or a body read that has not finished after c11HangAfter is reported as `hang`
-const c11HangAfter = 3 * time.Second
+// a build or a body read that has not finished after c11HangAfter is reported as `hang` (no input does
+// that on the repaired tree; F11d did). Once one case of this process has been reported as hanging, the
+// following ones are given c11HangAfterFirst only: a tree that brings the dead pipe back is then reported
+// (and its failing input shrunk) in bounded time, and a tree without hangs never sees the shorter patience.
+const (
+	c11HangAfter      = 3 * time.Second
+	c11HangAfterFirst = 300 * time.Millisecond
+)
+
+var c11HangSeen bool
+
+func c11Patience() <-chan time.Time {
+	if c11HangSeen {
+		return time.After(c11HangAfterFirst)
+	}
+	return time.After(c11HangAfter)
+}
 
 const (
 	c11FailMime  = "application/x-fail"
@@ -448,7 +463,8 @@ func c11Exec(in []string) []string {
 	case built = <-done:
 	case r := <-panicked:
 		panic(r)
-	case <-time.After(c11HangAfter):
+	case <-c11Patience():
+		c11HangSeen = true
 		out := []string{"hang", "-", ".", "!", "!", "hang", "-"}
 		out = append(out, empty...)
 		out = append(out, ".", "0")
@@ -493,7 +509,8 @@ func c11Exec(in []string) []string {
 			if r.err != nil {
 				bodykind = "readerr"
 			}
-		case <-time.After(c11HangAfter):
+		case <-c11Patience():
+			c11HangSeen = true
 			bodykind = "hang"
 		}
 	}
@@ -636,9 +653,17 @@ func c11Corpus() [][]string {
 		c11Case{method: "POST", mt: runtime.JSONMime, prods: defProds, pk: "J", pdata: "x", k: 3}.encode(),
 		c11Case{method: "PUT", mt: runtime.DefaultMime, prods: defProds, pk: "c", pdata: "stream bytes", k: 2}.encode(),
 		c11Case{method: "GET", mt: runtime.JSONMime, prods: defProds, pk: "n", k: 1}.encode(),
-		// F11d: value payload under multipart/form-data with a producer registered for it (with and without GetBody)
+		// the former F11d witnesses (repaired: the pipe is opened only when the multipart goroutine runs): a value
+		// payload under multipart/form-data with a producer registered for it, with and without GetBody — the
+		// body was a pipe nobody writes to; it must be the producer's output, also in the eyes of the auth writer
 		c11Case{method: "POST", mt: runtime.MultipartFormMime, prods: append([]string{runtime.MultipartFormMime}, defProds...), pk: "S", pdata: "x", k: -1}.encode(),
 		c11Case{method: "POST", mt: runtime.MultipartFormMime, prods: append([]string{runtime.MultipartFormMime}, defProds...), pk: "S", pdata: "x", k: 1}.encode(),
+		c11Case{method: "PUT", mt: runtime.MultipartFormMime, prods: []string{runtime.MultipartFormMime}, pk: "Y", pdata: "raw \x00 bytes", k: 3}.encode(),
+		c11Case{method: "POST", mt: runtime.MultipartFormMime, prods: []string{runtime.MultipartFormMime}, pk: "S", pdata: "no auth writer asks", k: 0}.encode(),
+		// the same media type and registry, but the payload is a stream / there are form fields: the pipe question
+		// does not arise for the first and the goroutine feeds it for the second
+		c11Case{method: "POST", mt: runtime.MultipartFormMime, prods: []string{runtime.MultipartFormMime}, pk: "c", pdata: "stream under multipart", k: 2}.encode(),
+		c11Case{method: "POST", mt: runtime.MultipartFormMime, prods: []string{runtime.MultipartFormMime}, pk: "n", fnames: []string{"a"}, fvals: [][]string{{"1", "2"}}, k: 2}.encode(),
 		// value payload under multipart/form-data without fields: nil producer
 		c11Case{method: "POST", mt: runtime.MultipartFormMime, prods: defProds, pk: "J", pdata: "x", k: -1}.encode(),
 	}
@@ -698,9 +723,16 @@ func c11Prods(r *proto.Rng, mt string) []string {
 		has = has || p == mt
 	}
 	// media types outside the default registry are registered most of the time (else the gate refuses
-	// them); a producer under exactly multipart/form-data makes value payloads hang: rare
-	if !has && mt != runtime.MultipartFormMime && r.Chance(5, 6) {
-		prods = append(prods, mt)
+	// them); exactly multipart/form-data half of the time: a value payload under it goes through that
+	// producer (the former F11d) or, unregistered, passes the gate and meets a nil producer
+	if !has {
+		if mt == runtime.MultipartFormMime {
+			if r.Chance(1, 2) {
+				prods = append(prods, mt)
+			}
+		} else if r.Chance(5, 6) {
+			prods = append(prods, mt)
+		}
 	}
 	return prods
 }
@@ -901,9 +933,6 @@ func c11Gen(r *proto.Rng, n int, tier string, emit func(in ...string)) {
 		}
 		c.mt = c11Media(r, kind)
 		c.prods = c11Prods(r, c.mt)
-		if c.mt == runtime.MultipartFormMime && r.Chance(1, 400) {
-			c.prods = append(c.prods, c.mt) // F11d territory when the payload is a value
-		}
 		emit(c.encode()...)
 	}
 }
